@@ -57,9 +57,9 @@ def inst_send_queue_pops(cx, iid):
 
 
 
-def run(cx):
+def queue_discipline(cx, iid):
     R = cx.R
-    with cx.instance("C05.a", "T3 WHO-MAY (queue discipline)", "packet_send_queue and pending_queue are touched only by push_back/front/pop_front/len/is_empty", floor=8, exact_floor=False) as inst:
+    with cx.instance(iid, "T3 WHO-MAY (queue discipline)", "packet_send_queue and pending_queue are touched only by push_back/front/pop_front/len/is_empty", floor=8, exact_floor=False) as inst:
         for b in R.all_bodies():
             if not b.path.startswith("half_connection::"):
                 continue
@@ -116,6 +116,11 @@ def run(cx):
             ty = [f["ty"] for f in a["variants"][0]["fields"] if f["name"] == fld]
             if not ty or "VecDeque" not in ty[0]:
                 inst.violation(adt, fld, "%s.%s is no longer a VecDeque (%s)" % (adt, fld, ty))
+
+
+def run(cx):
+    R = cx.R
+    queue_discipline(cx, "C05.a")
     with cx.instance("C05.b", "T2 PAIR + T7", "sequence id = next_id, bumped exactly once per emitted packet; fragments queued in ascending id", floor=3) as inst:
         b = R.body("PacketSender::emit_packet")
         bumps = [(l, node) for l, node, ps in b.field_writes(r"arg1\.next_id")]
